@@ -376,22 +376,58 @@ def inherited(w, p2, db, dialect, o2, under):
 REWRITES = [rw_let_prefix, rw_inline_lets, rw_function, rw_function, rw_function_compound, rw_split_filter, rw_merge_filters, rw_identity, rw_identity, rw_module]
 
 
-def _shard(seed, shard, n_bases):
-    rng = core.shard_rng(seed, "C06", shard)
+def fixed_bases(tier):
+    """Enumerated bases for the let-prefix / inline rewrites: the take-chain programs of C03 (two sort | take steps x
+    take forms incl. open-ended ones x what follows), cut exactly after the first and after the second take."""
+    from . import c03
+    db, progs = c03.take_chain_matrix(tier)
+    out = []
+    for i, p in enumerate(progs):
+        if p.get("lets"):
+            if i % 3 == 0:
+                out.append(p)          # already behind a let: the inline_lets rewrite applies
+            continue
+        takes = [j for j, t in enumerate(p["main"]) if t["t"] == "take"]
+        open_ended = any(p["main"][j].get("hi") is None for j in takes)
+        if not open_ended and i % 7:
+            continue
+        q = dict(p)
+        q["cuts"] = [{"at": j + 1, "quals": []} for j in takes if j + 1 < len(p["main"])]
+        if not q["cuts"]:
+            continue
+        q["boundary_at"] = q["cuts"][i % len(q["cuts"])]["at"]
+        q["boundary"] = ["take", p["main"][q["boundary_at"]]["t"] if q["boundary_at"] < len(p["main"]) else "end"]
+        out.append(q)
+    return db, out
+
+
+def _shard(seed, shard, n_bases, fixed=None):
+    rng = core.shard_rng(seed, "C06" if fixed is None else "C06:fixed", shard)
+    fixed_iter = iter(fixed) if fixed is not None else None
     w = core.Worker()
     viols, seen = [], set()
     obs = {"bases": 0, "bases_ok": 0, "pairs": 0, "pairs_sql_differs": 0, "by_rewrite": {}, "base_not_clean": 0, "rewrite_unspecified": 0,
            "nontrivial": set(), "cte_delta": {}, "boundary_pairs": set()}
     dbi = 0
-    while obs["bases"] < n_bases:
-        db = grel.gen_db(rng, relcheck.DB_KINDS[dbi % 5])
+    while fixed_iter is not None or obs["bases"] < n_bases:
+        if fixed_iter is not None:
+            nxt = next(fixed_iter, None)
+            if nxt is None:
+                break
+            db, fixed_progs = nxt
+        else:
+            db = grel.gen_db(rng, relcheck.DB_KINDS[dbi % 5])
+            fixed_progs = [None] * 8
         dbi += 1
         w.db_close_all()
         w.db_open("d", grel.db_stmts(db))
-        for _ in range(8):
+        for fprog in fixed_progs:
             try:
-                c0 = rng.random()
-                if c0 < 0.35:
+                c0 = rng.random() if fprog is None else 2.0
+                if fprog is not None:
+                    prog = fprog
+                    obs["fixed_bases"] = obs.get("fixed_bases", 0) + 1
+                elif c0 < 0.35:
                     prog = grel.boundary_program(rng)
                     obs["boundary_bases"] = obs.get("boundary_bases", 0) + 1
                 elif c0 < 0.55:
@@ -624,6 +660,8 @@ def run(tier, seed):
     N = core.NCPU
     n = 250 if tier == "quick" else 12000
     res = core.run_shards(_shard, [dict(seed=seed, shard=i, n_bases=n) for i in range(N)])
+    fdb, fprogs = fixed_bases(tier)
+    res += core.run_shards(_shard, [dict(seed=seed, shard=i, n_bases=0, fixed=[(fdb, fprogs[i::N])]) for i in range(N)])
     obs = {"nontrivial": set()}
     bpairs = set()
     for v, o in res:
